@@ -295,7 +295,9 @@ def translate_stmt(body):
 ASM_RE = re.compile(r'\b(__asm__|__asm|asm)\b\s*(__volatile__|volatile)?\s*\(')
 
 
-def rewrite(text):
+def rewrite(text, strict=True):
+    """strict=False: statements with instructions outside the table are left untouched (IR route: clang keeps
+    them as inline-asm calls and the interpreter refuses to execute them)"""
     out = []
     pos = 0
     count = 0
@@ -321,7 +323,14 @@ def rewrite(text):
         if k < len(text) and text[k] == ';':
             end = k + 1
         orig = text[m.start():end]
-        repl = translate_stmt(body)
+        try:
+            repl = translate_stmt(body)
+        except Asm2CError:
+            if strict:
+                raise
+            out.append(text[pos:end])
+            pos = end
+            continue
         repl = repl.replace('\n', ' ') + '\n' * orig.count('\n')
         out.append(text[pos:m.start()])
         out.append(repl)
